@@ -1621,7 +1621,7 @@ class ArmiObject(metaclass=CompositeModelType):
     def getNumberOfAtoms(self, nucName):
         """Return the number of atoms of nucName in this object."""
         numDens = self.getNumberDensity(nucName)  # atoms/bn-cm
-        return numDens * self.getVolume() / units.CM2_PER_BARN
+        return numDens * self._getVolumeInModel() / units.CM2_PER_BARN
 
     def getLumpedFissionProductCollection(self):
         """
@@ -2077,7 +2077,7 @@ class ArmiObject(metaclass=CompositeModelType):
         because getMass is too slow on a large tree.
         """
         numDensities = self.getNumberDensities()
-        vol = self.getVolume()
+        vol = self._getVolumeInModel()
         return {
             nucName: densityTools.getMassInGrams(nucName, vol, ndens)
             for nucName, ndens in numDensities.items()
@@ -2140,7 +2140,7 @@ class ArmiObject(metaclass=CompositeModelType):
         mass : float
             mass in grams of nuclide to be added to this armi Object
         """
-        volume = self.getVolume()
+        volume = self._getVolumeInModel()
         addedNumberDensity = densityTools.calculateNumberDensity(nucName, mass, volume)
         self.setNumberDensity(
             nucName, self.getNumberDensity(nucName) + addedNumberDensity
@@ -2171,7 +2171,7 @@ class ArmiObject(metaclass=CompositeModelType):
             Mass in grams to set.
 
         """
-        d = calculateNumberDensity(nucName, mass, self.getVolume())
+        d = calculateNumberDensity(nucName, mass, self._getVolumeInModel())
         self.setNumberDensity(nucName, d)
 
     def setMasses(self, masses):
@@ -2186,6 +2186,16 @@ class ArmiObject(metaclass=CompositeModelType):
         self.clearNumberDensities()
         for nucName, mass in masses.items():
             self.setMass(nucName, mass)
+
+    def _getVolumeInModel(self):
+        """
+        Return the volume that mass and atoms of this object are counted with.
+
+        This is ``getVolume`` except for a component of a block that is cut by symmetry
+        lines: the component reports its whole volume but only 1/symmetryFactor of it (and of
+        its mass, see ``Component.getMass``) is inside the model.
+        """
+        return self.getVolume()
 
     def getSymmetryFactor(self):
         """
